@@ -7,6 +7,22 @@ sys.path.insert(0, str(HERE))
 VERIF = HERE.parent
 PY = "/venv/bin/python"
 
+# T1c (DESIGN 12.12): source functions translated whole from /repo on every run and PROVED equal to the model (Properties/CxxImp*.lean)
+T1C = {
+    "C01": "qc_sub_fragments, cut_fragments (with the source's own QC plugged in; frame: nothing else of the build state changes)",
+    "C02": "the eight Start/EndOverhangPremise methods, OverhangResolver.add_overhang_premise, OverhangResolver.make_fixes (shared OverlapResults as store indices)",
+    "C03": "FastaStream.write_scaffold",
+    "C05": "format_tpf (with the source's translation table as the model has it)",
+    "C06": "format_agp (+ validity of what the SOURCE writes)",
+    "C07": "Scaffold.append_scaffold, BuildAssembly.input_predecessor, BuildAssembly.gaps_before_leftover (and their composition)",
+    "C12": "IndexedAssembly.find_overlaps (whole body: the SOURCE's lookup = the brute-force scan), IndexedAssembly.add_scaffold",
+    "C13": "FastaIndex.get_gap_iter / fwd_chunks / rev_chunks / get_info / get_sequence_iter, reverse_complement, revcomp_bytes_io; write_scaffold WITH the source's own iterators writes the model's bytes",
+    "C14": "OverlapResult.to_scaffold, Fragment.reverse",
+    "C17": "Scaffold.fragment_tags, Scaffold.length, Scaffold.fragments_length",
+    "C18": "discard_start, discard_end, overhang_if_start_removed, overhang_if_end_removed, trim_large_overhangs, fragment_start_if_trimmed, trim_fragment",
+    "C19": "Assembly.all_vs_all_fragments with find_overlapping_fragments' callback inlined (the SOURCE's scan satisfies the C19 specification)",
+}
+
 props = [json.loads(l) for l in (VERIF / "properties.jsonl").read_text().splitlines() if l.strip()]
 checks, na = [], []
 for p in props:
@@ -24,8 +40,10 @@ for p in props:
             "engine": "lean4-model+correspondence",
             "level_claimed": {"category": getattr(mod, "LEVEL", "proof"), "text": getattr(mod, "LEVEL_TEXT", getattr(mod, "EXPLANATION", "")),
                               "design_ref": f"DESIGN.md §5 {pid}"},
-            "level_note": getattr(mod, "LEVEL_NOTE", "; ".join(getattr(mod, "TRUSTED", []))),
-            "technique": getattr(mod, "TECHNIQUE", "Lean 4 theorems over a hand-written model + differential correspondence with the real code"),
+            "level_note": getattr(mod, "LEVEL_NOTE", "; ".join(getattr(mod, "TRUSTED", [])))
+                          + ((" NEWEST (T1c, DESIGN 12.12): translated whole from the current source on every run and PROVED equal to the model function: " + T1C[pid]
+                              + f" (Properties/{pid}Imp*.lean; translator harness/translate_imp.py, semantics Model/PyRt.lean, both in the trusted base)") if pid in T1C and (VERIF / "lean" / "AgpTpf" / "Properties" / f"{pid}Imp.lean").exists() else ""),
+            "technique": getattr(mod, "TECHNIQUE", "Lean 4 theorems over a hand-written model; the model is tied to the source on every run by regenerated constants (T1), by translation of source functions into Lean with PROVED equality to the model (T1b straight-line kernels, T1c whole method bodies with loops and mutation), and by differential correspondence with the real code + independent oracles (failing-input search)"),
         })
     else:
         na.append({"property_id": pid, "reason": "check not built yet in this revision (work in progress; see DESIGN.md §11)"})
